@@ -329,6 +329,34 @@ func main() {
 		}
 	}
 	samples.Add(fmt.Sprintf("sweep: capacity 1000, %d (offset,fill,op) combinations", sweep))
+	// very large buffers: one call consumes tens of thousands of contiguous slots (bulk helpers with block-wise copies)
+	huge := 0
+	for _, capa := range []int{40000, 70001} {
+		for _, off := range []int{0, 1, capa / 3, capa - 1} {
+			for _, fill := range []int{capa, capa - 1, 24577, 32769} {
+				for _, o := range []op{{"N", capa}, {"S", capa}, {"C", 0}} {
+					s := newSys(capa)
+					s.light = true
+					for i := 0; i < off; i++ {
+						s.apply(op{"W", 0})
+					}
+					s.apply(op{"S", off})
+					for i := 0; i < fill; i++ {
+						s.apply(op{"W", 0})
+					}
+					s.light = false
+					for _, oo := range []op{o, {"W", 0}, {"R", 0}, {"L", 0}} {
+						if sig, det := s.apply(oo); sig != "" {
+							run.Violation("ring-huge "+sig, fmt.Sprintf("capacity %d offset %d fill %d op %v: %s", capa, off, fill, oo, det), map[string]any{"capacity": capa, "offset": off, "fill": fill, "op": oo.String()})
+							break
+						}
+					}
+					huge++
+				}
+			}
+		}
+	}
+	samples.Add(fmt.Sprintf("huge buffers: capacities 40000 and 70001, %d (offset,fill,op) combinations consuming up to the whole buffer in one call", huge))
 	run.Assume = []string{"elements are opaque to the buffer (data independence): distinct serial numbers are written, the state key keeps only which slots are non-zero"}
 	run.Finish(ev.Coverage{
 		"states": totalStates, "transitions": totalTrans, "traces_validated_against_impl": totalTrans,
